@@ -1,5 +1,6 @@
 import IceModel.Gather
 import IceSpec.C18
+import IceSpec.C03Gather
 import IceProofs.GatherUnits
 import IceProofs.GatherCyc
 import IceProofs.GatherProv
@@ -119,9 +120,17 @@ theorem C18_sound (cfg : Config) (ifs : List Iface) (hq : cfg.quirks = []) (hwf 
         have hne := netEnabled_of_configured hen
         have hex := supported_not_excluded hsup
         by_cases hmd : cfg.mdnsGather = true
-        · have h46 : (netEnabled cfg (NetType.ofTransport false false) || netEnabled cfg (NetType.ofTransport false true)) = true := by
-            cases h6 : mp.cls.is6 <;> simp_all
-          simp [candViolation, unitCand, hmd, hT, h46, excludedClass, AddrClass.isLinkLocal6, hmux, NetType.isTCP]
+        · -- mDNS gather mode (after the fix of F34): the candidate carries the network type and the address of the listen
+          -- address itself (no rewriting in this mode), behind the mDNS name — a link-local one included
+          have hma : mp = a := by
+            rcases mem_muxMapped hmp with h | ⟨h, _⟩
+            · exact h
+            · simp [hmd] at h
+          subst hma
+          have hw := hwf
+          simp only [realAddrs, hmux, Option.getD_some, Bool.and_eq_true, List.all_eq_true] at hw
+          have hnm : (mp.cls == AddrClass.nm) = false := by simpa using hw.1.1.2 mp hamem
+          simp [candViolation, unitCand, hmd, hT, hne, hex, hnm, hmux, ofTransport_is6]
         · have hmd' : cfg.mdnsGather = false := by simpa using hmd
           have hq9 : cfg.has 9 = false := by simp [Config.has, hq]
           have hk : mp.cls.isLinkLocal6 = false := by simpa [unitCand, hmd', hq9] using hh
@@ -1052,5 +1061,27 @@ example : IceGen.hostNetworkTypeEnabled [1, 3] (IceGen.determineNetworkType fals
     IceGen.hostNetworkTypeEnabled [1, 4] (IceGen.determineNetworkType false true false).1
       (IceGen.determineNetworkType false true false).2 = true := by decide
 example : IceGen.configuredNetworkTypes [] = [1, 2, 3, 4] ∧ IceGen.configuredNetworkTypes [3] = [3] := by decide
+
+/-! ### UDP mux host candidates under the mDNS name (F34 fixed): real family, real address -/
+
+def mdMuxCfg : Config := { candTypes := [.host], mdnsGather := true, udpMux := some [⟨.c6, 3⟩, ⟨.c6, 4⟩, ⟨.k6, 2⟩] }
+
+/-- the IPv4-compatible listen addresses are excluded, the link-local one yields the one candidate: udp6, address `k6.2`,
+announced under the mDNS name, on the mux port -/
+example : (match newAgent mdMuxCfg (cgIfs [⟨.g4, 1⟩]) with
+    | .ok s => ((step s .gather).1.cands.map fun c => (c.d.net, c.d.addr, c.d.mdns, c.d.pflag, c.d.resolved))
+    | .error _ => []) = [(NetType.udp6, ⟨.k6, 2⟩, true, PFlag.M, true)] := by decide
+/-- what the code published before the fix (udp4, no address) is rejected when udp4 is not enabled -/
+example : candViolation { mdMuxCfg with netTypes := [.udp6] } (cgIfs [⟨.g4, 1⟩])
+    { ty := .host, net := .udp4, addr := ⟨.k6, 2⟩, mdns := true, pflag := .M }
+    = some "network type not enabled: host candidate borrowed from the UDP mux" := by decide
+/-- … and its digest without a transport address is rejected by the C03 clause of the gather component -/
+example : IceSpec.C03Gather.addrViolation
+    { cands := [({ ty := .host, net := .udp4, addr := ⟨.nm, 0⟩, mdns := true, pflag := .M, resolved := false }, some 0)] }
+    ≠ none := by decide
+/-- several listen addresses in mDNS mode: `existingConfigs` is keyed by (name, port), only the first admissible one counts -/
+example : (match newAgent { mdMuxCfg with udpMux := some [⟨.g6, 1⟩, ⟨.g4, 1⟩], netTypes := [.udp4] } (cgIfs [⟨.g4, 1⟩]) with
+    | .ok s => ((step s .gather).1.cands.map fun c => (c.d.net, c.d.addr), (step s .gather).1.opens)
+    | .error _ => ([], 9)) = ([(NetType.udp4, ⟨.g4, 1⟩)], 1) := by decide
 
 end IceProps.C18
